@@ -170,8 +170,9 @@ fn relation_cases(ctx: &mut Ctx, w: &World, idx: usize) {
     let nonce = rand_scalar(&mut ctx.prng);
     let lock = rand_scalar(&mut ctx.prng);
     let ms = agreed_msg(&a, &nonce, &lock);
-    for rel in 0..11 {
+    for rel in 0..17 {
         let mut f = Forge::honest(ctx, &ms);
+        let dlt = Scalar::from(1 + ctx.prng.gen_range(0..1000u64));
         let what = match rel {
             0 => "all-relations-hold".to_string(),
             1 => { f.ms_s[0] += Scalar::one(); "state-channel-id".into() }
@@ -183,7 +184,20 @@ fn relation_cases(ctx: &mut Ctx, w: &World, idx: usize) {
             7 => { f.ms_s[4] += Scalar::one(); "state-merchant-balance".into() }
             8 => { f.ms_c[4] -= Scalar::one(); "close-state-merchant-balance".into() }
             9 => { f.ts_c[2] += Scalar::one(); "revocation-lock-commitment-scalars-differ".into() }
-            _ => { f.ts_s[3] += Scalar::one(); "customer-balance-commitment-scalars-differ".into() }
+            10 => { f.ts_s[3] += Scalar::one(); "customer-balance-commitment-scalars-differ".into() }
+            // several relations at once, with deviations that cancel in sums / products of the checked equations
+            11 => { f.ms_s[3] += dlt; f.ms_s[4] -= dlt; f.ms_c[3] += dlt; f.ms_c[4] -= dlt; "balances-shifted-with-constant-total".into() }
+            12 => { if ms[3] == ms[4] { continue; } f.ms_s.swap(3, 4); f.ms_c.swap(3, 4); "hidden-balances-swapped".into() }
+            13 => { f.ms_s[3] += dlt; f.ms_s[4] -= dlt; "state-balances-shifted-with-constant-total".into() }
+            14 => { f.ms_c[3] -= dlt; f.ms_c[4] += dlt; "close-state-balances-shifted-with-constant-total".into() }
+            15 => { f.ms_s[0] += dlt; f.ms_c[0] += dlt; f.ms_s[3] -= dlt; f.ms_c[3] -= dlt; "channel-id-and-balance-shifted-oppositely".into() }
+            _ => {
+                // a random non-empty subset of hidden slots moved by random amounts, the same in both messages
+                let mut any = false;
+                for k in [0usize, 3, 4] { if ctx.prng.gen_range(0..2) == 0 { let r = rand_scalar(&mut ctx.prng); f.ms_s[k] += r; f.ms_c[k] += r; any = true; } }
+                if !any { f.ms_s[4] += dlt; f.ms_c[4] += dlt; }
+                "random-subset-of-hidden-values-moved".into()
+            }
         };
         let draft = match f.atoms(ctx, w, &Scalar::zero()) { Some(d) => d, None => return };
         let c = match merchant_challenge(ctx, w, &a, &draft) { Some(c) => c, None => return };
